@@ -14,7 +14,7 @@ pub struct Job {
     pub shape: &'static str,
 }
 
-pub const SHAPES: [&str; 9] = ["sole", "clone", "shared_ab", "shared_ba", "other_thread", "concurrent", "diverge8", "clones64", "tail_handle"];
+pub const SHAPES: [&str; 10] = ["sole", "clone", "shared_ab", "shared_ba", "other_thread", "concurrent", "diverge8", "clones64", "tail_handle", "twins"];
 
 pub fn jobs(thorough: bool) -> Vec<Job> {
     let mut v = vec![];
@@ -48,7 +48,7 @@ pub fn jobs(thorough: bool) -> Vec<Job> {
 
 pub fn run(prop: &str, thorough: bool) -> (FamilyResult, bool) {
     let t0 = Instant::now();
-    let fam = "E7 child-process ladder: {release, dev} x stack {2 MiB, 256 KiB} x 5 ownership shapes x game length N (played: every action from valid_actions(); synthetic: history built with List::append) — clone, query, drop".to_string();
+    let fam = "E7 child-process ladder: {release, dev} x stack {2 MiB, 256 KiB} x 10 ownership shapes (incl. twins: the same game built twice, compared with ==, hashed, used as HashSet / HashMap keys) x game length N (played: every action from valid_actions(); synthetic: history built with List::append) — clone, query, drop".to_string();
     let base = crate::verif_dir().join("target").join("stackchild");
     let all = jobs(thorough);
     let fam2 = fam.clone();
@@ -118,6 +118,9 @@ pub fn loom_b6(prop: &str, thorough: bool) -> (FamilyResult, bool) {
     let t0 = Instant::now();
     let fam = "E6 loom body B6: k owners of lists sharing a 300-node tail drop them concurrently; stack depth probe in every element's Drop (limit 4096 bytes), all interleavings within the preemption bound".to_string();
     let exe = crate::verif_dir().join("target").join("loom").join("release").join("loomh");
+    if std::env::var("C20_NO_LOOM").is_ok() {
+        return (FamilyResult { explorer: "E6".into(), family: fam, complete: false, note: "NOT RUN: the instrumented copy of this tree does not build under loom (an API loom does not model); the verdict rests on the child-process ladder".into(), stats: Stats::default(), wall_s: 0.0 }, false);
+    }
     let jobs: Vec<(usize, &str)> = if thorough { vec![(2, "none"), (3, "none"), (4, "3")] } else { vec![(2, "none"), (3, "3")] };
     let mut st = Stats::default();
     let mut machinery = false;
